@@ -44,6 +44,14 @@ func genC22(r *kit.Rand, tier kit.Tier) C22Case {
 		cfg.Lower.TransQ = 8
 	}
 
+	// one run in three: separate read and write queues with write-drain mode
+	// (non-default), small enough for the watermarks to be crossed
+	if r.Chance(1, 3) {
+		cfg.Lower.RWQueue = r.PickInt(4, 8, 16)
+		cfg.Lower.WriteHigh = r.PickInt(1, 2, cfg.Lower.RWQueue/2)
+		cfg.Lower.WriteLow = r.Intn(cfg.Lower.WriteHigh)
+	}
+
 	// address streams with DRAM-relevant locality: runs inside a row, strides that
 	// come back to the same bank with another row, scattered accesses
 	for i := range cfg.Reqs {
